@@ -69,7 +69,7 @@ c.finish(
         "translated constants and functions coq/Gen/Gen_C08.v, Gen_Limits.v (StreamBudget, MaxXRefEntries, FlatePredictor.isValid, LZW and limit constants)",
         "hooks /repo/verif_c08.go (VerifAsMalformedFilter, VerifNewStreamReaderAt) and internal/filter/{dct/jpeg,predict,jbig2,ccittfax}/verif_c08.go "
         "(VerifPlaneBytes, VerifProgBlock, VerifBufferLens, VerifPoolTrace, VerifMainTable, VerifRunTables, VerifStates): they call the real functions and report sizes; no logic",
-        "translated constants coq/Gen/Gen_C08dct.v (jpeg blockSize, bytesPerProgBlock, maxComponents; ccittfax decoder states)",
+        "translated constants and functions coq/Gen/Gen_C08dct.v (jpeg blockSize, bytesPerProgBlock, maxComponents, maxProgPasses; ccittfax decoder states; jbig2 workLimit and its constants)",
     ],
     partial=[
         "a85_out_bound_as_designed_refuted: the design's bound |a85_dec e| <= |e| is false ('z' expands 1 byte to 4); proved instead: a85_out_bound (<= 4*|e|)",
